@@ -9,7 +9,7 @@ import z3
 
 from .values import (SymVal, CharStr, PyObj, PyList, SymSeq, PyDict, SymMap, PySet, SymSet,
                      ClassObj, BuiltinClass, EnumMember, FuncObj, BoundMethod, StaticMethod,
-                     PropertyObj, ModuleObj, Builtin, ExcObj, Opaque, Computed, _MISSING)
+                     PropertyObj, ModuleObj, Builtin, ExcObj, Opaque, Computed, SymMat, SymRowRef, _MISSING)
 from . import ops
 from .ops import to_term, mk, kind_of, is_num
 
@@ -578,7 +578,7 @@ class Interp:
     def st_For(self, st, env):
         spec = self.loopspec_for(st, env)
         it = self.eval(st.iter, env)
-        if spec is not None:
+        if spec is not None and (isinstance(it, (SymSeq, _SymRange)) or spec.cut_concrete):
             return self.loop_cut_for(st, env, spec, it)
         items = self.iterate(it, allow_symbolic=False, where=st)
         for x in items:
@@ -689,6 +689,8 @@ class Interp:
                 from .models import promote_set
                 promote_set(cur)
                 cur.m = z3.Array(self._fname('set'), z3.IntSort(), z3.BoolSort())
+            elif isinstance(cur, SymMat):
+                cur.arr = z3.Array(self._fname('mat'), z3.IntSort(), z3.ArraySort(z3.IntSort(), z3.IntSort()))
             else:
                 self.setattr_(obj, node.attr, self.havoc_value(cur, node.attr, spec))
         elif isinstance(node, ast.Name):
@@ -758,6 +760,13 @@ class Interp:
         self.exec_block(st.orelse, env)
 
     def loop_cut_for(self, st, env, spec, it):
+        self.loop_entry_stack.append(self.entry_snapshot(env))
+        try:
+            return self._loop_cut_for(st, env, spec, it)
+        finally:
+            self.loop_entry_stack.pop()
+
+    def _loop_cut_for(self, st, env, spec, it):
         # index-based iteration over a sequence of symbolic or concrete length
         if isinstance(it, SymSeq):
             n = it.n
@@ -1489,6 +1498,19 @@ class Interp:
             if not self.branch(z3.Select(obj.dom, kt), 'key'):
                 self.raise_builtin('KeyError', 'key')
             return mk_elem(z3.Select(obj.val, kt), obj.vk)
+        if isinstance(obj, SymMat):
+            t = to_term(idx, 'int')
+            if not self.spec_mode and not self.branch(z3.And(t >= 0, t < obj.h), 'row-index'):
+                self.raise_builtin('IndexError', 'list index out of range')
+            return SymRowRef(obj, t)
+        if isinstance(obj, SymRowRef):
+            t = to_term(idx, 'int')
+            if not self.spec_mode and not self.branch(z3.And(t >= 0, t < obj.mat.w), 'column-index'):
+                self.raise_builtin('IndexError', 'list index out of range')
+            arr = obj.mat.arr
+            if self.old_mode and self.old_snapshot is not None and id(obj.mat) in self.old_snapshot:
+                arr = self.old_snapshot[id(obj.mat)]
+            return mk_elem(z3.Select(z3.Select(arr, obj.r), t), 'atom')
         if isinstance(obj, ClassObj) and obj.is_enum:
             if isinstance(idx, str):
                 if idx in obj.members:
@@ -1535,6 +1557,12 @@ class Interp:
             kt = to_term(idx)
             obj.dom = z3.Store(obj.dom, kt, True)
             obj.val = z3.Store(obj.val, kt, to_term(value))
+        elif isinstance(obj, SymRowRef):
+            t = to_term(idx, 'int')
+            if not self.branch(z3.And(t >= 0, t < obj.mat.w), 'column-index'):
+                self.raise_builtin('IndexError', 'list assignment index out of range')
+            m = obj.mat
+            m.arr = z3.Store(m.arr, obj.r, z3.Store(z3.Select(m.arr, obj.r), t, to_term(value, 'int')))
         elif isinstance(obj, PyObj):
             si = obj.cls.lookup('__setitem__')
             if si is _MISSING:
@@ -1999,6 +2027,10 @@ class Interp:
             n = PyDict(dict(sv))
             n.orig = v
             return n
+        if isinstance(v, SymMat):
+            n = SymMat(sv, v.h, v.w)
+            n.orig = v
+            return n
         if isinstance(v, SymSet):
             return SymSet(sv) if z3.is_expr(sv) else PySet(sv)
         if isinstance(v, PySet):
@@ -2042,6 +2074,8 @@ class Interp:
                 snap[id(o)] = o.m
             elif isinstance(o, SymMap):
                 snap[id(o)] = (o.dom, o.val)
+            elif isinstance(o, SymMat):
+                snap[id(o)] = o.arr
             elif isinstance(o, tuple):
                 stack.extend(o)
             elif isinstance(o, Opaque):
